@@ -7,6 +7,10 @@ use crate::{
 };
 
 pub(crate) trait Evaluator {
+    /// Whether the argument forms handed to `funcall` still have to be
+    /// evaluated (`true`), or are values that were evaluated already.
+    const EVALUATES: bool;
+
     fn eval(
         ctx: &mut TulispContext,
         value: &TulispObject,
@@ -16,6 +20,8 @@ pub(crate) trait Evaluator {
 
 pub(crate) struct Eval;
 impl Evaluator for Eval {
+    const EVALUATES: bool = true;
+
     fn eval(
         ctx: &mut TulispContext,
         value: &TulispObject,
@@ -27,6 +33,8 @@ impl Evaluator for Eval {
 
 pub(crate) struct DummyEval;
 impl Evaluator for DummyEval {
+    const EVALUATES: bool = false;
+
     fn eval(
         _ctx: &mut TulispContext,
         _value: &TulispObject,
@@ -131,7 +139,39 @@ pub(crate) fn funcall<E: Evaluator>(
     args: &TulispObject,
 ) -> Result<TulispObject, Error> {
     match &*func.inner_ref() {
-        TulispValue::Func(ref func) => func(ctx, args),
+        TulispValue::Func(ref func) => {
+            if E::EVALUATES {
+                func(ctx, args)
+            } else {
+                // Built-ins evaluate their own arguments.  These arguments are
+                // values already, so quote those that do not evaluate to
+                // themselves, to have them taken as they are.
+                let quoted = TulispObject::nil();
+                for arg in args.base_iter() {
+                    let self_evaluating = matches!(
+                        &*arg.inner_ref(),
+                        TulispValue::Nil
+                            | TulispValue::T
+                            | TulispValue::Int { .. }
+                            | TulispValue::Float { .. }
+                            | TulispValue::String { .. }
+                            | TulispValue::Any(_)
+                            | TulispValue::Func(_)
+                            | TulispValue::Macro(_)
+                            | TulispValue::Defmacro { .. }
+                            | TulispValue::Lambda { .. }
+                            | TulispValue::Bounce
+                    );
+                    if self_evaluating {
+                        quoted.push(arg)?;
+                    } else {
+                        let span = arg.span();
+                        quoted.push(TulispValue::Quote { value: arg }.into_ref(span))?;
+                    }
+                }
+                func(ctx, &quoted)
+            }
+        }
         TulispValue::Lambda {
             ref params,
             ref body,
